@@ -7,10 +7,12 @@
      next commit of *any* operation);
    * is_default flags are sets of flagged rows, maintained by the three SQL triggers per table;
    * every public operation is a *program*: the sequence of private-key-store / database steps the
-     code performs (DESIGN Appendix D).  Step(o, r) runs the whole program, Fail(o, n) runs the steps
+     code performs (DESIGN Appendix D).  Step(o) runs the whole program, Fail(o, n) runs the steps
      before the n-th fault point and stops (the step that raises has no effect);
    * keys are slots <<identity, n>>, certificates <<key, 1>> (self-signed, made by new_key) and
-     <<key, 2>> (imported).  The executor maps slots to real (random) key names.
+     <<key, 2>> (imported).  The executor maps slots to real (random) key names.  The slot a new key
+     goes into is a parameter of NewKey / TouchIdentity (o.k): the model checker always takes the lowest
+     free one (FreeSlot), a recorded trace may name any free one;
 
    Deviation flags (TRUE = the library as found, FALSE = intended behaviour = proposed fix):
      DevScope     Identity[...] / Key[...] / `in` are not scoped to the owner
@@ -30,9 +32,9 @@
      - get_signer({'cert': c}) is only quantified for c present in the store or c of a deleted key. *)
 EXTENDS Naturals, Sequences, FiniteSets, TLC
 
-CONSTANTS Ids, Depth, MaxLevel, MaxFaults, DevScope, DevCacheLoc, DevDelKey
+CONSTANTS Ids, MaxKeys, Depth, MaxLevel, MaxFaults, DevScope, DevCacheLoc, DevDelKey
 
-KeyN == 1..2
+KeyN == 1..MaxKeys
 Keys == Ids \X KeyN
 Certs == Keys \X (1..2)
 NoId == "none"
@@ -46,11 +48,11 @@ VARIABLE st
          n : calls made (only counted when Depth > 0), nf : faults injected so far]
    The key type (EC / RSA) is a parameter of NewKey only: no step and no invariant depends on it, the
    executor remembers which real key it put into which slot.
-   DB = [ids, keys, certs, dI, dK, dC : sets, first : [Ids -> KeyN] (the older key slot),
+   DB = [ids, keys, certs, dI, dK, dC : sets, ord : [Ids -> Seq(KeyN)] (key slots in creation order),
          lI, lK, lC : history - scopes whose default row was deleted and that have none since] *)
 
 EmptyDB == [ids |-> {}, keys |-> {}, certs |-> {}, dI |-> {}, dK |-> {}, dC |-> {},
-            first |-> [i \in Ids |-> 1], lI |-> FALSE, lK |-> {}, lC |-> {}]
+            ord |-> [i \in Ids |-> <<>>], lI |-> FALSE, lK |-> {}, lC |-> {}]
 InitSt == [cur |-> EmptyDB, disk |-> EmptyDB, tpm |-> {}, cache |-> {}, open |-> TRUE, gone |-> {},
            n |-> 0, nf |-> 0]
 Init == st = InitSt
@@ -61,13 +63,8 @@ CacheKeys(S) == {e.key : e \in S.cache}
 InUse(S) == S.cur.keys \cup S.disk.keys \cup S.tpm \cup CacheKeys(S)
 FreeSlots(S, i) == {k \in Keys : k[1] = i /\ k \notin InUse(S)}
 FreeSlot(S, i) == CHOOSE k \in FreeSlots(S, i) : \A x \in FreeSlots(S, i) : k[2] <= x[2]
-Other(k) == <<k[1], 3 - k[2]>>
 \* iteration order of an identity's keys = rowid order = creation order
-KeySeq(db, i) == LET a == <<i, db.first[i]>> b == Other(a) IN
-                 (IF a \in db.keys THEN <<a>> ELSE <<>>) \o (IF b \in db.keys THEN <<b>> ELSE <<>>)
-NormFirst(db) == [db EXCEPT !.first = [i \in Ids |->
-                    IF <<i, 1>> \in db.keys /\ <<i, 2>> \in db.keys THEN db.first[i]
-                    ELSE IF <<i, 2>> \in db.keys THEN 2 ELSE 1]]
+KeySeq(db, i) == [j \in 1..Len(db.ord[i]) |-> <<i, db.ord[i][j]>>]
 
 -----------------------------------------------------------------------------
 (* steps *)
@@ -85,9 +82,9 @@ NormLost(db) == [db EXCEPT !.lI = @ /\ db.ids # {} /\ db.dI = {},
 ApplyDB0(x, db) ==
   CASE x.s = "insId" -> [db EXCEPT !.ids = @ \cup {x.i}, !.dI = IF @ = {} THEN {x.i} ELSE @]
     [] x.s = "updId" -> IF x.i \in db.ids /\ x.i \notin db.dI THEN [db EXCEPT !.dI = {x.i}] ELSE db
-    [] x.s = "insKey" -> NormFirst([db EXCEPT !.keys = @ \cup {x.k},
+    [] x.s = "insKey" -> [db EXCEPT !.keys = @ \cup {x.k},
                            !.dK = IF @ \cap KeysOf(db, x.k[1]) = {} THEN @ \cup {x.k} ELSE @,
-                           !.first = IF KeysOf(db, x.k[1]) = {} THEN [@ EXCEPT ![x.k[1]] = x.k[2]] ELSE @])
+                           !.ord = [@ EXCEPT ![x.k[1]] = Append(@, x.k[2])]]
     [] x.s = "updKey" -> IF x.k \in db.keys /\ x.k \notin db.dK
                          THEN [db EXCEPT !.dK = (@ \ KeysOf(db, x.k[1])) \cup {x.k}] ELSE db
     [] x.s = "insCert" -> [db EXCEPT !.certs = @ \cup {x.c},
@@ -97,8 +94,9 @@ ApplyDB0(x, db) ==
     [] x.s = "delCert" -> [db EXCEPT !.certs = @ \ {x.c}, !.dC = @ \ {x.c},
                                      !.lC = IF x.c \in db.dC THEN @ \cup {x.c[1]} ELSE @]
     [] x.s = "delCertsOf" -> [db EXCEPT !.certs = @ \ CertsOf(db, x.k), !.dC = @ \ CertsOf(db, x.k)]
-    [] x.s = "delKey" -> NormFirst([db EXCEPT !.keys = @ \ {x.k}, !.dK = @ \ {x.k},
-                                              !.lK = IF x.k \in db.dK THEN @ \cup {x.k[1]} ELSE @])
+    [] x.s = "delKey" -> [db EXCEPT !.keys = @ \ {x.k}, !.dK = @ \ {x.k},
+                                    !.ord = [@ EXCEPT ![x.k[1]] = SelectSeq(@, LAMBDA n : n # x.k[2])],
+                                    !.lK = IF x.k \in db.dK THEN @ \cup {x.k[1]} ELSE @]
     [] x.s = "delId" -> [db EXCEPT !.ids = @ \ {x.i}, !.dI = @ \ {x.i}, !.lI = @ \/ x.i \in db.dI]
     [] OTHER -> db
 ApplyDB(x, db) == NormLost(ApplyDB0(x, db))
@@ -116,8 +114,6 @@ Apply(x, S) ==
 
 RECURSIVE Run(_, _, _)
 Run(prog, S, n) == IF n = 0 THEN S ELSE Apply(prog[n], Run(prog, S, n - 1))
-
-Norm(S) == S
 
 -----------------------------------------------------------------------------
 (* operations: o = [op, i, k, c, t, by, loc] *)
@@ -169,9 +165,9 @@ Plan(o, S) ==
     [] o.op = "TouchIdentity" ->
          IF o.i \in db.ids
          THEN [prog |-> IF db.dI = {} THEN << SI("updId", o.i), Commit >> ELSE <<>>, res |-> NoRes("ok")]
-         ELSE [prog |-> << SI("insId", o.i), Commit >> \o NewKeyProg(FreeSlot(S, o.i), "ec"), res |-> NoRes("ok")]
+         ELSE [prog |-> << SI("insId", o.i), Commit >> \o NewKeyProg(o.k, "ec"), res |-> NoRes("ok")]
     [] o.op = "NewKey" ->
-         IF o.i \in db.ids THEN [prog |-> NewKeyProg(FreeSlot(S, o.i), o.t), res |-> NoRes("ok")]
+         IF o.i \in db.ids THEN [prog |-> NewKeyProg(o.k, o.t), res |-> NoRes("ok")]
          ELSE [prog |-> <<>>, res |-> NoRes("keyerr")]
     [] o.op = "ImportCert" ->
          IF <<o.k, 2>> \in db.certs THEN [prog |-> <<>>, res |-> NoRes("integrity")]
@@ -195,13 +191,13 @@ Plan(o, S) ==
               IF hit # {}
               THEN [prog |-> <<>>, res |-> [out |-> "ok", sel |-> r.key, got |-> (CHOOSE e \in hit : TRUE).key,
                                             lt |-> loc.t, lc |-> loc.c]]
-              ELSE IF r.key \notin S.tpm THEN [prog |-> <<>>, res |-> NoRes("keyerr")]
+              ELSE IF r.key \notin S.tpm THEN [prog |-> << Stp("tpmGet", TRUE) >>, res |-> NoRes("keyerr")]
               ELSE [prog |-> << Stp("tpmGet", TRUE),
                                [Stp("cachePut", FALSE) EXCEPT !.k = r.key, !.t = loc.t, !.c = loc.c] >>,
                     res |-> [out |-> "ok", sel |-> r.key, got |-> r.key, lt |-> loc.t, lc |-> loc.c]]
     [] o.op = "Close" -> [prog |-> << Stp("rollback", FALSE), CacheReset >>, res |-> NoRes("ok")]
 
-Do(o, S) == LET p == Plan(o, S) IN Norm(Run(p.prog, S, Len(p.prog)))
+Do(o, S) == LET p == Plan(o, S) IN Run(p.prog, S, Len(p.prog))
 
 \* positions of the fault points of a program
 FaultPos(prog) == SelectSeq([j \in 1..Len(prog) |-> j], LAMBDA j : prog[j].f)
@@ -211,50 +207,79 @@ Part(o, S, n) ==
   LET prog == Plan(o, S).prog
       p == FaultPos(prog)[n]
       S1 == Run(prog, S, p - 1) IN
-  Norm(S1)
+  S1
 
 -----------------------------------------------------------------------------
 (* which calls are generated from a state *)
-SignOps(S) ==
-  LET db == S.cur
-      base == {Op0("GetSigner")} IN
-  { [o EXCEPT !.loc = l] : l \in {"cert", "custom"},
-      o \in {[x EXCEPT !.by = "default"] : x \in base}
-        \cup {[x EXCEPT !.by = "identity", !.i = i] : x \in base, i \in db.ids}
-        \cup {[x EXCEPT !.by = "key", !.k = k] : x \in base, k \in db.keys \cup S.gone}
-        \cup {[x EXCEPT !.by = "cert", !.c = c] : x \in base,
-                 c \in db.certs \cup {c \in Certs : c[1] \in S.gone}} }
-
-Ops(S) ==
-  LET db == S.cur IN
-     {OpI("NewIdentity", i) : i \in Ids}
-  \cup {OpI("TouchIdentity", i) : i \in {i \in Ids : i \in db.ids \/ FreeSlots(S, i) # {}}}
-  \cup {[OpI("NewKey", i) EXCEPT !.t = t] : i \in {i \in db.ids : FreeSlots(S, i) # {}}, t \in Types}
-  \cup {OpK("ImportCert", k) : k \in {k \in db.keys : <<k, 2>> \notin db.certs \/ <<k, 2>> \notin S.disk.certs}}
-  \cup {OpI("SetDefId", i) : i \in db.ids}
-  \cup {OpK("SetDefKey", k) : k \in db.keys}
-  \cup {OpC("SetDefCert", c) : c \in db.certs}
-  \cup {OpC("DelCert", c) : c \in db.certs \cup S.disk.certs}
-  \cup {OpK("DelKey", k) : k \in db.keys \cup S.disk.keys \cup S.tpm}
-  \cup {OpI("DelIdentity", i) : i \in db.ids \cup S.disk.ids}
-  \cup SignOps(S)
+SignBase == {[Op0("GetSigner") EXCEPT !.by = "default", !.loc = "cert"]}
+     \cup {[Op0("GetSigner") EXCEPT !.by = "identity", !.i = i, !.loc = "cert"] : i \in Ids}
+     \cup {[Op0("GetSigner") EXCEPT !.by = "key", !.k = k, !.loc = l] : k \in Keys, l \in {"cert", "custom"}}
+     \cup {[Op0("GetSigner") EXCEPT !.by = "cert", !.c = c, !.loc = l] : c \in Certs, l \in {"cert", "custom"}}
+AllOps ==
+       {OpI("NewIdentity", i) : i \in Ids}
+  \cup {OpI("TouchIdentity", i) : i \in Ids}
+  \cup {[OpI("TouchIdentity", k[1]) EXCEPT !.k = k] : k \in Keys}
+  \cup {[OpI("NewKey", k[1]) EXCEPT !.t = t, !.k = k] : k \in Keys, t \in Types}
+  \cup {OpK("ImportCert", k) : k \in Keys}
+  \cup {OpI("SetDefId", i) : i \in Ids}
+  \cup {OpK("SetDefKey", k) : k \in Keys}
+  \cup {OpC("SetDefCert", c) : c \in Certs}
+  \cup {OpC("DelCert", c) : c \in Certs}
+  \cup {OpK("DelKey", k) : k \in Keys}
+  \cup {OpI("DelIdentity", i) : i \in Ids}
+  \cup SignBase
   \cup {Op0("Close")}
 
-\* Step(o, r): the call o runs to completion and returns r;  Fail(o, n): its n-th fault point raises
+Enabled(o, S) ==
+  LET db == S.cur IN
+  CASE o.op = "NewIdentity" -> TRUE
+    [] o.op = "TouchIdentity" ->
+         IF o.i \in db.ids THEN o.k = NoKey ELSE FreeSlots(S, o.i) # {} /\ o.k = FreeSlot(S, o.i)
+    [] o.op = "NewKey" -> o.i \in db.ids /\ FreeSlots(S, o.i) # {} /\ o.k = FreeSlot(S, o.i)
+    [] o.op = "ImportCert" -> o.k \in db.keys /\ (<<o.k, 2>> \notin db.certs \/ <<o.k, 2>> \notin S.disk.certs)
+    [] o.op = "SetDefId" -> o.i \in db.ids
+    [] o.op = "SetDefKey" -> o.k \in db.keys
+    [] o.op = "SetDefCert" -> o.c \in db.certs
+    [] o.op = "DelCert" -> o.c \in db.certs \cup S.disk.certs
+    [] o.op = "DelKey" -> o.k \in db.keys \cup S.disk.keys \cup S.tpm
+    [] o.op = "DelIdentity" -> o.i \in db.ids \cup S.disk.ids
+    [] o.op = "GetSigner" ->
+         (CASE o.by = "default" -> TRUE
+            [] o.by = "identity" -> o.i \in db.ids
+            [] o.by = "key" -> o.k \in db.keys \cup S.gone
+            [] o.by = "cert" -> o.c \in db.certs \/ o.c[1] \in S.gone)
+    [] o.op = "Close" -> TRUE
+
+Ops(S) == {o \in AllOps : Enabled(o, S)}
+SignOps(S) == {o \in SignBase : Enabled(o, S)}
+
+MaxPts == 4 * MaxKeys + 3
+\* what the enabled calls return (everything get_signer returns, every outcome other than "ok");
+\* printed with each state of the graph dump (ALIAS DumpAlias) for the replay harness
+ObsAlways(S) == IF S.open THEN {<<o, Plan(o, S).res>> : o \in {o \in Ops(S) : o.op = "GetSigner" \/ Plan(o, S).res.out # "ok"}} ELSE {}
+DumpAlias == [st |-> st, obs |-> ObsAlways(st)]
+
+\* Step(o): the call o runs to completion;  Fail(o, n): its n-th fault point raises
 Tick(S) == IF Depth > 0 THEN [S EXCEPT !.n = @ + 1] ELSE S
 Exec(o, S) == Tick(IF o.op = "Close" THEN [Do(o, S) EXCEPT !.open = FALSE] ELSE Do(o, S))
-Step(o, r) == st.open /\ st' = Exec(o, st)
-Fail(o, n) == st.open /\ st.nf < MaxFaults /\ st' = Tick([Part(o, st, n) EXCEPT !.nf = @ + 1])
-Reopen == ~st.open /\ st' = Tick([st EXCEPT !.open = TRUE])
-
 More == Depth = 0 \/ st.n < Depth
-Next == /\ More
-        /\ \/ \E o \in Ops(st) : \E r \in {Plan(o, st).res} : Step(o, r)
-           \/ \E o \in Ops(st) : \E n \in 1..NFaults(o, st) : Fail(o, n)
-           \/ Reopen
+\* (Call / Crash: the bare transitions, reused by KeychainTrace with its own well-formedness guard)
+Call(o) == st.open /\ st' = Exec(o, st)
+Crash(o, n) == /\ st.open /\ n <= NFaults(o, st)
+               /\ st' = Tick([Part(o, st, n) EXCEPT !.nf = IF MaxFaults = 0 THEN 0 ELSE @ + 1])
+Step(o) == More /\ st.open /\ Enabled(o, st) /\ Call(o)
+\* MaxFaults = 0: any number of faults in a history (nf not counted)
+Fail(o, n) == /\ More /\ st.open /\ (MaxFaults = 0 \/ st.nf < MaxFaults)
+              /\ Enabled(o, st) /\ Crash(o, n)
+Reopen == More /\ ~st.open /\ st' = Tick([st EXCEPT !.open = TRUE])
+
+Next == \/ \E o \in AllOps : Step(o)
+        \/ \E o \in AllOps : \E n \in 1..MaxPts : Fail(o, n)
+        \/ Reopen
 Spec == Init /\ [][Next]_st
 
 \* bound for the graph dump (single worker, so that levels are exact)
+Perms == Permutations(Ids)
 Bound == TLCGet("level") < MaxLevel
 
 -----------------------------------------------------------------------------
